@@ -10,6 +10,7 @@
   model-level content of "ends": the kernel accepted the termination proofs.
 -/
 import DpapiNg.Proofs.SafeKek
+import DpapiNg.Proofs.Work
 import DpapiNg.Proofs.Chain
 namespace DpapiNg.C05
 open DpapiNg DpapiNg.Asn1 DpapiNg.Blob DpapiNg.Gkdi DpapiNg.Client
@@ -92,6 +93,14 @@ theorem kdf_calls_le (env : Chain.Env Bytes) (r1 r2 : Nat) (h : ¬ Chain.rejects
   unfold Chain.rejects at h
   unfold Chain.steps Chain.startL1
   split <;> split <;> omega
+
+/-- "parser steps proportional to input size": every data-driven loop of the blob parser (base-128 octets, OID arcs, the
+    recipient-info SET) makes at most one iteration per octet it was handed; the other readers are straight-line. -/
+theorem parser_loops_bounded :
+    (∀ b n k, unpackOctetNumber b = .ok (n, k) → 1 ≤ k ∧ k ≤ b.length) ∧
+    (∀ fuel b arcs, readArcs fuel b = .ok arcs → arcs.length ≤ b.length) ∧
+    (∀ fuel v ris, recipientInfosUnpack fuel v = .ok ris → ris.length ≤ v.length) :=
+  ⟨unpackOctetNumber_consumed, readArcs_length_le, recipientInfosUnpack_length_le⟩
 
 -- non-vacuity: the toy primitives of the correspondence harness satisfy `CryptoSafe`'s shape on a sample
 example : Deliberate .invalidTag ∧ Deliberate .invalidUnwrap ∧ ¬ Deliberate .indexError ∧ ¬ Deliberate .overflowError := by
